@@ -12,6 +12,7 @@ import (
 	"errors"
 	"fmt"
 	"net"
+	"os"
 	"time"
 
 	"github.com/Jigsaw-Code/outline-ss-server/service"
@@ -22,6 +23,9 @@ import (
 type UOp struct {
 	Kind   string `json:"kind"`           // send | reply | stray | expire | update
 	List   []int  `json:"list,omitempty"` // update: the new key list
+	// update: the list changes while a TCP client of the same service, on the UDP client's IP address and using a
+	// key that is being dropped, is in the middle of its handshake (TCP and UDP of a service share the key list)
+	ViaTCP bool `json:"via_tcp,omitempty"`
 	Client int    `json:"client"`
 	Key    int    `json:"key"`
 	Target int    `json:"target"`
@@ -50,7 +54,8 @@ type uOpts struct {
 	sizes           []int
 }
 
-var uClientIPs = []string{"127.0.0.1", "127.0.0.1", "127.0.0.2", "127.9.8.7", "127.0.0.2", "::1", "::1"}
+// "ll6" is this host's link-local address (with its zone), when it has one: a client on the local link
+var uClientIPs = []string{"127.0.0.1", "127.0.0.1", "127.0.0.2", "127.9.8.7", "127.0.0.2", "::1", "::1", "ll6"}
 
 func genUCase(o uOpts) func(t *rapid.T) UCase {
 	sizes := o.sizes
@@ -67,7 +72,11 @@ func genUCase(o uOpts) func(t *rapid.T) UCase {
 			maxClients = 7
 		}
 		c.ClientIPs = rapid.SliceOfN(rapid.SampledFrom(uClientIPs), 1, maxClients).Draw(t, "clients")
-		c.Targets = rapid.SliceOfN(rapid.SampledFrom([]string{"v4", "v4", "v6", "v4x"}), 1, 4).Draw(t, "targets")
+		tkinds := []string{"v4", "v4", "v6", "v4x"}
+		if !o.expiry {
+			tkinds = append(tkinds, "dns") // a target on port 53 (its associations live 17 s: not with short timeouts)
+		}
+		c.Targets = rapid.SliceOfN(rapid.SampledFrom(tkinds), 1, 4).Draw(t, "targets")
 		c.TimeoutMs = 300_000
 		if o.expiry {
 			c.TimeoutMs = rapid.SampledFrom([]int{120, 200, 350}).Draw(t, "timeout")
@@ -142,6 +151,7 @@ func genUCase(o uOpts) func(t *rapid.T) UCase {
 					}
 				}
 				cur = op.List
+				op.ViaTCP = rapid.IntRange(0, 2).Draw(t, "viaTCP") == 0
 				if k, used := lastKey[op.Client]; used && dropped && o.expiry {
 					// the former client comes back with its old key once its association has gone
 					c.Ops = append(c.Ops, op, UOp{Kind: "expire"},
@@ -187,6 +197,11 @@ type uAssoc struct {
 	Rec     *kit.RecUDPAssoc
 	Expired bool
 	targets map[int]bool
+	// for the DNS fast close: outbound writes attempted on the association (forwarded or failed in the kernel), whether
+	// the first one went to port 53, and datagrams the association's socket has received
+	Writes   int
+	FirstDNS bool
+	Reads    int
 	// client-side instant taken before the most recent datagram that extends the deadline
 	LastWrite time.Time
 }
@@ -291,6 +306,14 @@ func newUWorld(c UCase, info *kit.Info, validator func(net.IP) error) (*uWorld, 
 		if ip == "::1" && !have6 {
 			ip = "127.0.0.3"
 		}
+		if ip == "ll6" {
+			c05Detect()
+			if ip = c05Local.zoned; ip == "" || !have6 {
+				ip = "127.0.0.4"
+			} else {
+				info.Class("client-on-link-local-address")
+			}
+		}
 		p, err := kit.NewUDPPeer(ip, 0)
 		if err != nil {
 			w.skipped = "cannot bind client socket on " + ip
@@ -306,7 +329,13 @@ func newUWorld(c UCase, info *kit.Info, validator func(net.IP) error) (*uWorld, 
 		if fam == "v4x" {
 			ip = forbiddenTargetIP // a destination the policy of this world refuses
 		}
-		p, err := kit.NewUDPPeer(ip, 0)
+		port := 0
+		if fam == "dns" {
+			// port 53 on a loopback address private to this process and target slot
+			pid := os.Getpid()
+			ip, port = fmt.Sprintf("127.%d.%d.%d", (pid/250)%250+1, pid%250+1, 100+len(w.targets)), 53
+		}
+		p, err := kit.NewUDPPeer(ip, port)
 		if err != nil {
 			w.skipped = "cannot bind target socket"
 			return w, nil
@@ -325,6 +354,9 @@ func newUWorld(c UCase, info *kit.Info, validator func(net.IP) error) (*uWorld, 
 func (w *uWorld) frontAddrFor(p *kit.UDPPeer) *net.UDPAddr {
 	if p.Addr.IP.To4() != nil {
 		return &net.UDPAddr{IP: net.IPv4(127, 0, 0, 1), Port: w.front.Addr.Port}
+	}
+	if p.Addr.Zone != "" { // link-local: the proxy's wildcard socket is reached on the same interface address
+		return &net.UDPAddr{IP: p.Addr.IP, Zone: p.Addr.Zone, Port: w.front.Addr.Port}
 	}
 	return &net.UDPAddr{IP: net.IPv6loopback, Port: w.front.Addr.Port}
 }
@@ -588,6 +620,10 @@ func (w *uWorld) doSend(i int, op UOp) *kit.Finding {
 		rec.Gen = a.Gen
 		a.LastWrite = sentAt
 		a.targets[op.Target] = true
+		if a.Writes == 0 {
+			a.FirstDNS = tgt.Addr.Port == 53
+		}
+		a.Writes++
 		src := d.From.String()
 		if prev, ok := a.NatSrc[fam(tgt.Addr)]; ok && prev != src && w.checkNAT {
 			return kit.Violation("nat:source-changed", "op %d: client %d datagrams left from %s earlier and from %s now within one association", i, op.Client, prev, src)
@@ -658,7 +694,7 @@ func (w *uWorld) doSend(i int, op UOp) *kit.Finding {
 			}
 			return kit.Violation("udp:assoc-not-reported", "op %d: an authenticated datagram with an allowed destination created no association (its send failed, but it is the client's datagram that creates the association)", i)
 		}
-		na := &uAssoc{Client: op.Client, Gen: len(w.all), Key: matched[0], NatSrc: map[string]string{}, targets: map[int]bool{}, Rec: r, LastWrite: sentAt}
+		na := &uAssoc{Client: op.Client, Gen: len(w.all), Key: matched[0], NatSrc: map[string]string{}, targets: map[int]bool{}, Rec: r, LastWrite: sentAt, Writes: 1}
 		w.assoc[op.Client] = na
 		w.all = append(w.all, na)
 		na.Sends = append(na.Sends, withGen(rec, na.Gen))
@@ -680,6 +716,7 @@ func (w *uWorld) doSend(i int, op UOp) *kit.Finding {
 		a.Sends = append(a.Sends, withGen(rec, a.Gen))
 		if unsendable && allowedDst {
 			a.LastWrite = sentAt
+			a.Writes++ // the send was attempted: it counts as client activity
 		}
 		w.info.Class("invalid-on-live-assoc")
 		w.info.NonTrivial = true
@@ -689,8 +726,32 @@ func (w *uWorld) doSend(i int, op UOp) *kit.Finding {
 
 func withGen(r uSendRec, g int) uSendRec { r.Gen = g; return r }
 
-// doReply: from is the sending peer (a contacted target or a stranger).
+// doReply: from is the sending peer (a contacted target or a stranger). After the reply proper, the DNS fast close:
+// an association whose only outbound write was one datagram to port 53 closes right after the first datagram its
+// socket receives, if that comes from port 53.
 func (w *uWorld) doReply(i int, op UOp, from *kit.UDPPeer, kind string) *kit.Finding {
+	a := w.liveAssoc(op.Client)
+	f := w.doReplyInner(i, op, from, kind)
+	if f != nil || a == nil || w.aborted {
+		return f
+	}
+	if _, reached := a.NatSrc[fam(from.Addr)]; !reached && from.Addr.Zone == "" {
+		return nil // nothing was sent
+	}
+	a.Reads++
+	if a.Reads == 1 && from.Addr.Port == 53 && a.Writes == 1 && a.FirstDNS {
+		if !kit.WaitFor(uBound, func() bool { return a.Rec != nil && a.Rec.Removed() > 0 }) {
+			return kit.Violation("nat:no-fast-close", "op %d: client %d's association carried one DNS query and has received its first datagram, from port 53, but is not removed %v later", i, op.Client, uBound)
+		}
+		a.Expired = true
+		delete(w.assoc, op.Client)
+		w.info.Class("dns-fast-close")
+		w.info.NonTrivial = true
+	}
+	return nil
+}
+
+func (w *uWorld) doReplyInner(i int, op UOp, from *kit.UDPPeer, kind string) *kit.Finding {
 	if f := w.ensureFresh(i, op.Client); f != nil {
 		return f
 	}
@@ -898,13 +959,46 @@ func (w *uWorld) run() *kit.Finding {
 			f = w.doExpire(i)
 		case "update":
 			// the list changes under the running packet loop; live associations keep the key that opened them
+			oldModel := w.model
 			w.model = nil
 			for _, k := range op.List {
 				if k < len(w.c.Universe) {
 					w.model = append(w.model, w.c.Universe[k])
 				}
 			}
+			var gc *kit.GatedConn
+			tcpDone := make(chan struct{})
+			if op.ViaTCP {
+				for _, old := range oldModel {
+					dropped := true
+					for _, n := range w.model {
+						dropped = dropped && n.Material() != old.Material()
+					}
+					if !dropped {
+						continue
+					}
+					key := old.Key()
+					wire := kit.EncodeStream(key, kit.DetBytes(op.Seed+77, key.SaltSize()), append(kit.SocksAddr("192.0.2.99", 80, false), "x"...), nil)
+					cip := w.clients[op.Client].Addr
+					gc = kit.NewGatedConn(wire, &net.TCPAddr{IP: cip.IP, Zone: cip.Zone, Port: 40000 + i})
+					auth := service.NewShadowsocksStreamAuthenticator(w.ciphers, nil, nil, nil)
+					go func() { auth(gc); close(tcpDone) }()
+					select {
+					case <-gc.Waiting():
+					case <-time.After(2 * time.Second):
+					}
+					w.info.Class("update-during-a-tcp-handshake-under-a-dropped-key")
+					break
+				}
+			}
 			w.ciphers.Update(kit.CipherEntries(append(append([]kit.KeySpec(nil), w.model...), w.fenceKey)))
+			if gc != nil {
+				gc.Open()
+				select {
+				case <-tcpDone:
+				case <-time.After(2 * time.Second):
+				}
+			}
 			w.updates++
 			w.info.Class("update")
 		}
